@@ -84,7 +84,7 @@ func auditProblems(wd string, exp *ref.Result, ti *mon.TraceIndex) (ps []mon.Pro
 func c10(args []string) {
 	c := chk.New("C10", "exploration", args)
 	c.Build(false)
-	c.Rule("[stale audit files] history: run with one tagging rule, output files deleted while their .audit.json files stay, run with another tagging rule - the records the second run writes carry the second run's tags only; generated graphs (a quarter of the commands carry a free-text argument with JSON-escape look-alikes such as \\u0026, printf verbs or backslashes) with multi-input / multi-output tasks, parameters, MapToTags components (tags consumed downstream in commands and default output names), StreamToSubStream + joined in-ports, fan-in / fan-out, Prepend, depth <= 6; oracle: every finalized output has a parsable <path>.audit.json equal to the reference lineage tree in ProcessName, Command, Params, Tags, OutFiles and Upstream key set, recursively down to the source files (empty records), timing sane (start <= finish, duration >= 0, start non-zero); the recorded command equals the argv the command itself logged; a tag attached with an empty value and filled in by a later tagging step; parameter ports that exist only through InParam(name) (value used in the SetOut pattern, not in the command) belong to the record too. distinct_nontrivial = distinct (graph shape, config) with >= 3 audit records of depth >= 2")
+	c.Rule("[path shapes] chain / two-output / diamond topologies with outputs in nested, parent-relative and absolute directories: every record field (OutFiles, Upstream keys, commands) names the declared paths; [stale audit files] history: run with one tagging rule, output files deleted while their .audit.json files stay, run with another tagging rule - the records the second run writes carry the second run's tags only; generated graphs (a quarter of the commands carry a free-text argument with JSON-escape look-alikes such as \\u0026, printf verbs or backslashes) with multi-input / multi-output tasks, parameters, MapToTags components (tags consumed downstream in commands and default output names), StreamToSubStream + joined in-ports, fan-in / fan-out, Prepend, depth <= 6; oracle: every finalized output has a parsable <path>.audit.json equal to the reference lineage tree in ProcessName, Command, Params, Tags, OutFiles and Upstream key set, recursively down to the source files (empty records), timing sane (start <= finish, duration >= 0, start non-zero); the recorded command equals the argv the command itself logged; a tag attached with an empty value and filled in by a later tagging step; parameter ports that exist only through InParam(name) (value used in the SetOut pattern, not in the command) belong to the record too. distinct_nontrivial = distinct (graph shape, config) with >= 3 audit records of depth >= 2")
 	c.Assume("ids and absolute times are not compared", "MapToTags is only placed on streams it consumes alone (the component mutates the record it shares with the producer; with sibling consumers that is the C12 race)")
 	rng := c.Rand("c10")
 	type job struct {
@@ -359,6 +359,7 @@ func c10(args []string) {
 		})
 	}
 	c10staleAudit(c)
+	c10pathShapes(c)
 	c.Finish()
 }
 
@@ -454,5 +455,71 @@ func c10staleAudit(c *chk.Ctx) {
 		}
 		c.Count("records_after_stale_audit_files", n)
 		c.Nontrivial(fmt.Sprintf("staleaudit|%d", i))
+	})
+}
+
+// c10pathShapes: records of outputs that lie in nested, parent-relative and absolute directories: every field - in
+// particular OutFiles and the Upstream keys - names the declared paths, not the encoded names used inside the
+// task's temp directory.
+func c10pathShapes(c *chk.Ctx) {
+	type pj struct {
+		kind string
+		sh   gen.PathShape
+		gof  bool
+	}
+	var jobs []pj
+	for _, k := range []string{"chain", "twoout", "diamond"} {
+		for _, sh := range []gen.PathShape{gen.ShapeParent, gen.ShapeAbs, gen.ShapeNested} {
+			for _, g := range []bool{false, true} {
+				if !c.Thorough() && (len(jobs)%3 == 1) {
+					jobs = append(jobs, pj{})
+					continue
+				}
+				jobs = append(jobs, pj{k, sh, g})
+			}
+		}
+	}
+	run.Parallel(len(jobs), func(i int) {
+		j := jobs[i]
+		if j.kind == "" {
+			return
+		}
+		root := c.CaseDir()
+		defer c.Drop(root)
+		s := gen.Topo(j.kind, j.sh, j.gof, root, 2)
+		exp := evalRef(s, nil)
+		if exp.Err != "" {
+			c.Broken("reference cannot evaluate " + s.Name + ": " + exp.Err)
+		}
+		desc := map[string]interface{}{"topology": j.kind, "path_shape": j.sh, "gofunc": j.gof, "spec": s}
+		res := execSpec(c, root, s, Cfg{Buf: 3, Procs: 2}, nil, false, 0)
+		if res.Hang != "" && !strings.HasPrefix(res.Hang, "deadlock") {
+			c.Inconclusive(res.Hang)
+			return
+		}
+		if res.Hang != "" || res.Exit != 0 || !res.Returned {
+			c.Violation("run:exit-nonzero", fmt.Sprintf("%s with %s paths: exit %d %s: %s", j.kind, j.sh, res.Exit, res.Hang, tail(res.Output(), 400)), desc)
+			return
+		}
+		var ps []mon.Problem
+		n := 0
+		for path, want := range exp.AuditFor {
+			got, err := mon.LoadAudit(filepath.Join(root, mon.RootRel(root, path)+".audit.json"))
+			if err != nil {
+				ps = append(ps, mon.Problem{Sig: "audit-file-unreadable", Msg: err.Error()})
+				continue
+			}
+			ps = append(ps, mon.CompareAudit(got, want, path, false)...)
+			n += got.Count()
+		}
+		if len(ps) > 0 {
+			for _, sig := range sigSet(ps) {
+				desc["problems"] = mon.Summarize(ps, 10)
+				c.Violation(sig, fmt.Sprintf("%s with %s paths: %s", j.kind, j.sh, strings.Join(mon.Summarize(ps, 4), "\n  ")), desc)
+			}
+			return
+		}
+		c.Count("audit_records_compared", n)
+		c.Nontrivial(fmt.Sprintf("pathshape|%s|%s|%v", j.kind, j.sh, j.gof))
 	})
 }
